@@ -293,13 +293,19 @@ theorem bindTarget_spec (l r : CE) (hs : ScInv r.sc) :
   unfold bindTarget
   split
   · rename_i s hty
-    have hu := updateType_spec hs s r.reg.getType
-    refine ⟨hu.1, ?_⟩
-    intro left sc he
-    obtain ⟨hi, _⟩ := hu.2 _ _ he
     have hln : l.reg ≠ .none := by
       intro e; rw [e] at hty; simp [Reg.getType] at hty
-    exact ⟨hi, fun _ => hln⟩
+    split
+    · refine ⟨by simp, ?_⟩
+      intro left sc he
+      simp only [Out.ok.injEq, Prod.mk.injEq] at he
+      obtain ⟨rfl, rfl⟩ := he
+      exact ⟨hs, fun _ => hln⟩
+    · have hu := updateType_spec hs s r.reg.getType
+      refine ⟨hu.1, ?_⟩
+      intro left sc he
+      obtain ⟨hi, _⟩ := hu.2 _ _ he
+      exact ⟨hi, fun _ => hln⟩
   · refine ⟨by simp, ?_⟩
     intro left sc he
     simp at he
